@@ -29,25 +29,12 @@ def cases(tier, seed):
     return out
 
 
-def use_instance(p, key, rng):
-    """a user solves the instance a little and narrows the box of the solver's own evolvent (public attribute, public SetBounds)"""
-    import contextlib
-    import io
-    from iOpt.solver import Solver
-    from iOpt.solver_parametrs import SolverParameters
-    lo, hi = bench.bounds(p)
-    with contextlib.redirect_stdout(io.StringIO()):
-        s = Solver(p, SolverParameters(eps=0.05, r=3.0, itersLimit=12, evolventDensity=6))
-        s.DoGlobalIteration(4)
-        s.evolvent.SetBounds(np.array(lo + 0.1 * (hi - lo), dtype=np.double), np.array(hi - 0.2 * (hi - lo), dtype=np.double))
-        s.DoGlobalIteration(3)
-
-
-def check_meta(key, viol, obs, used=False):
+def check_meta(key, viol, obs, used=False, variant=0):
     p = bench.construct(tuple(key))
     if used:
         before = (np.array(p.lowerBoundOfFloatVariables, dtype=float).copy(), np.array(p.upperBoundOfFloatVariables, dtype=float).copy())
-        use_instance(p, key, None)
+        how = bench.use_instance(p, variant)
+        obs["used:" + how] = obs.get("used:" + how, 0) + 1
         obs["instances_audited_after_use"] = obs.get("instances_audited_after_use", 0) + 1
         after = (np.array(p.lowerBoundOfFloatVariables, dtype=float), np.array(p.upperBoundOfFloatVariables, dtype=float))
         if not (np.array_equal(before[0], after[0]) and np.array_equal(before[1], after[1])):
@@ -153,11 +140,14 @@ def run_case(c):
     if c["kind"] == "meta":
         for key in c["keys"]:
             check_meta(key, viol, obs)
-            # every 16th instance (and every Shekel4 / StronginC3 / high-dimensional one) is audited a second time after it has been used
+            # every 4th instance (and every Shekel4 / StronginC3 / high-dimensional one) is audited a second time after it has been used
             hk = int.from_bytes(__import__("hashlib").sha256(repr(key).encode()).digest()[:2], "little")
-            if hk % 16 == 0 or key[0] in ("shekel4", "stronginc3") or (key[0] in ("rastrigin", "xsquared") and key[1] > 12):
+            variant = hk // 4
+            if key[0] in ("rastrigin", "xsquared") and key[1] > 12:
+                variant = variant % 2 + 4 * (variant // 4)      # no local phase in 16..100 dimensions (minutes of simplex steps)
+            if hk % 4 == 0 or key[0] in ("shekel4", "stronginc3") or (key[0] in ("rastrigin", "xsquared") and key[1] > 12):
                 n0 = obs.get("instances", 0)
-                check_meta(key, viol, obs, used=True)
+                check_meta(key, viol, obs, used=True, variant=variant)
                 obs["instances"] = n0
         return {"violations": viol, "obs": obs, "nontrivial": True, "keys": ["meta|" + "|".join(map(str, k)) for k in c["keys"]],
                 "sample": {"kind": "metadata audit", "instances": c["keys"][:3]} if c["keys"][0] in (["hill", 0], ["gkls", 2, 1]) else None}
